@@ -17,8 +17,8 @@ CHECKS = {
          "as C01", "5 C03"),
  "C04": ("A+B", "exploration", "runtime monitoring: global (index, term) ledger over every append, reopened log and final dump",
          "held on the executions explored", "as C01", "5 C04"),
- "C05": ("A+B", "fault_enumeration", "runtime monitoring: every vote reply compared with the voter's state and term file at the reply hook; restarts compared with acknowledged term/vote",
-         "voter state x request grid enumerated completely (2160 cases, each with a second candidate, a restart and a seeded sixth crashed at a vote hook), plus live elections with crashes at the vote hooks",
+ "C05": ("A+B", "fault_enumeration", "runtime monitoring: every vote reply compared with the voter's state and term file at the reply hook; restarts compared with acknowledged term/vote; a system-call trace (strace) of part of the grid and of a live election run checked for the order of term-file renames, directory flushes and replies",
+         "voter state x request grid enumerated completely (2700 cases, each with a second candidate, a restart and a seeded sixth crashed at a vote hook), plus live elections with crashes at the vote hooks",
          "as C01", "5 C05"),
  "C06": ("A", "exploration", "runtime monitoring: durable frontier per node from flush events, counted at every leader commit advance",
          "held on the executions explored, across configurations reached by membership changes",
